@@ -482,6 +482,48 @@ def alias_reuse_ok(s):
     return True
 
 
+def stmt_tables(s):
+    """table references (schema, name) read anywhere in a statement, CTE references excluded"""
+    out = []
+
+    def q_(q, ctes):
+        if q[0] == "select":
+            stack = list(q[2])
+            while stack:
+                x = stack.pop()
+                if x[0] == "group":
+                    stack += [x[1], x[2]]
+                elif x[0] == "derived":
+                    q_(x[1], ctes)
+                elif not (x[1][0] is None and x[1][1] in ctes):
+                    out.append(x[1])
+            if q[4] is not None:
+                q_(q[4][1], ctes)
+        elif q[0] == "union":
+            q_(q[1], ctes); q_(q[2], ctes)
+        else:
+            q_(q[2], ctes); q_(q[3], ctes | {q[1]})
+    q = stmt_query(s)
+    if q is not None:
+        q_(q, set())
+    return out
+
+
+def gen_self_reading(r, depth=2):
+    """a statement whose target is one of the tables it reads, at any nesting level (anti-join loads, derived tables or CTEs
+    over the target): table level only (the column level of such statements is the recorded class K-C02-2)"""
+    for _ in range(100):
+        s = gen_stmt(r, depth, False)
+        if s[0] not in ("insert", "ctas", "view"):
+            continue
+        tabs = stmt_tables(s)
+        if not tabs:
+            continue
+        t = r.choice(tabs)
+        return (s[0], t) + tuple(s[2:])
+    raise RuntimeError("no statement")
+
+
 def gen_recursive(r):
     """WITH RECURSIVE r1 AS (anchor UNION ALL step reading r1) body reading r1: table level only"""
     tabs = r.sample([t for t in TABLES if t[1] != "t1"] + [("s1", "t1")], 3)
